@@ -295,6 +295,82 @@ func checkWrapperOwnership(c *Check, rule string) {
 	if n == 0 {
 		c.Undecided(rule, "module:os.NewFile", "-", "no os.NewFile site found")
 	}
+	// A function that wraps one of its parameters takes the number over: its wrapper's Close (or whoever it hands
+	// the wrapper to) releases it, also when the function fails. A caller that closes the same number by hand after
+	// such a call releases it twice.
+	consumes := map[*ssa.Function]int{}
+	for _, fn := range p.AllFuncs() {
+		if !inModule(fn) || fn.Pkg == nil || strings.HasSuffix(fn.Pkg.Pkg.Path(), "_test") {
+			continue
+		}
+		for _, ci := range callInstrs(fn) {
+			if nm, _ := calleeOf(ci); nm != "os.NewFile" {
+				continue
+			}
+			if par, ok := stripConv(ci.Common().Args[0]).(*ssa.Parameter); ok {
+				for i, q := range fn.Params {
+					if q == par {
+						consumes[fn] = i
+					}
+				}
+			}
+		}
+	}
+	nc := 0
+	for _, fn := range p.AllFuncs() {
+		if !inModule(fn) || fn.Pkg == nil || strings.HasSuffix(fn.Pkg.Pkg.Path(), "_test") {
+			continue
+		}
+		calls := callInstrs(fn)
+		for _, ci := range calls {
+			_, callee := calleeOf(ci)
+			idx, ok := consumes[callee]
+			if callee == nil || !ok || idx >= len(ci.Common().Args) {
+				continue
+			}
+			call, isCall := ci.(*ssa.Call)
+			if !isCall {
+				continue
+			}
+			nc++
+			arg := stripConv(ci.Common().Args[idx])
+			argD := describe(arg)
+			bad := ""
+			for _, c2 := range calls {
+				if n2, _ := calleeOf(c2); n2 != "syscall.Close" && n2 != "golang.org/x/sys/unix.Close" {
+					continue
+				}
+				a2 := stripConv(c2.Common().Args[0])
+				if a2 != arg && describe(a2) != argD {
+					continue
+				}
+				after := false
+				if c2.Block() == call.Block() {
+					ic, i2 := -1, -1
+					for k, in := range call.Block().Instrs {
+						if in == ssa.Instruction(call) {
+							ic = k
+						}
+						if in == c2.(ssa.Instruction) {
+							i2 = k
+						}
+					}
+					after = i2 > ic
+				} else {
+					after = anyReach(call.Block(), c2.Block())
+				}
+				if after {
+					bad = p.Pos(c2.Pos())
+				}
+			}
+			c.Cond(bad == "", rule, shortName(fn)+":"+shortName(callee)+"("+argD+"):no-raw-close-after-handover", p.Pos(call.Pos()),
+				"the number handed to a function that wraps it is not closed by number afterwards",
+				shortName(callee)+" wraps its argument in an *os.File and closes that on every path, also when it fails; the caller closes the same number again at "+bad+": a double close, the second possibly after the number was reused by another goroutine")
+		}
+	}
+	if nc == 0 {
+		c.Undecided(rule, "module:handover", "-", "no call hands a number to a wrapping function")
+	}
 	c.Expect(rule, 6)
 }
 
